@@ -102,7 +102,7 @@ LabVariants ==
   >>
 \* (the thorough catalogue widens the location pairs, shapes and splits; TLC caps an enumerated set at 10^6 elements)
 ValsA == {<<1, 2>>}
-ValsB == {<<1, 2>>, <<1, -3>>, <<-1, -2>>, <<0, 0>>}
+ValsB == {<<1, 2>>, <<1, -3>>, <<-1, -2>>, <<0, 0>>, <<3, -3>>}      \* the last one: non-zero values whose sum is zero
 
 Hdr0 == [period |-> 1, time |-> 0, dur |-> 0, comments |-> <<>>, dflt |-> "", doc |-> "",
          drop |-> "", keep |-> ""]
